@@ -93,8 +93,15 @@ def parse_hover(value):
 
 
 def split_top(s, sep=","):
-    out, depth, cur = [], 0, ""
+    out, depth, cur, quote = [], 0, "", None
     for c in s:
+        if quote:
+            cur += c
+            if c == quote:
+                quote = None
+            continue
+        if c in "'\"":
+            quote = c
         if c in "([":
             depth += 1
         elif c in ")]":
@@ -138,10 +145,52 @@ def doc_equiv(doc, d):
     return None
 
 
+class Plain:
+    """an expected declaration written out explicitly"""
+
+    def __init__(self, name, type_, attrs):
+        self.name, self.type, self.attrs, self.value, self.doc, self.doc_kind = name, type_, attrs, None, None, "none"
+
+
+def group_decl(rng, k):
+    """one statement declaring several names, some with their own shape or length; -> (statement text, [Plain])"""
+    r = rng
+    kind = r.choice(["num", "num", "char", "ext"])
+    if kind == "ext":
+        n1, n2 = "g_f%d" % k, "g_g%d" % k
+        return ["real :: %s, %s" % (n1, n2), "external %s" % n1], [Plain(n1, "real", ["external"]), Plain(n2, "real", [])]
+    if kind == "char":
+        base = r.choice(["character(len=5)", "character"])
+        names = []
+        outs = []
+        for i in range(r.choice([2, 3])):
+            nm = "g_c%d_%d" % (k, i)
+            form = r.choice(["plain", "len", "len+dim"])
+            if form == "plain":
+                names.append(nm); outs.append(Plain(nm, base, []))
+            elif form == "len":
+                names.append("%s*7" % nm); outs.append(Plain(nm, "character*7", []))
+            else:
+                names.append("%s(2)*4" % nm); outs.append(Plain(nm, "character*4", ["dimension(2)"]))
+        return ["%s :: %s" % (base, ", ".join(names))], outs
+    base = r.choice(["real", "integer", "real(8)"])
+    gdim = r.choice([None, "dimension(3)"])
+    other = r.choice([[], ["save"], ["target"]])
+    names, outs = [], []
+    for i in range(r.choice([2, 3])):
+        nm = "g_n%d_%d" % (k, i)
+        if r.random() < 0.5:
+            names.append("%s(4)" % nm); outs.append(Plain(nm, base, other + ["dimension(4)"]))
+        else:
+            names.append(nm); outs.append(Plain(nm, base, other + ([gdim] if gdim else [])))
+    return ["%s :: %s" % (", ".join([base] + ([gdim] if gdim else []) + other), ", ".join(names))], outs
+
+
 class Module:
     def __init__(self, rng, k):
         r = rng
         self.name = "m_hov%d" % k
+        self.groups = [group_decl(r, 10 * k + i) for i in range(r.choice([0, 1, 2]))]
         self.decls = [Decl(r, "v_%s%d" % (r.choice("abcdefgh"), i), module_level=True) for i in range(r.choice([2, 3, 5]))]
         self.procs = []
         for j in range(r.choice([1, 2, 3])):
@@ -153,12 +202,20 @@ class Module:
                                "doc": r.choice([None, [r.choice(WORDS)]])})
 
     def render(self):
+        import random as _random
+        self_r = _random.Random(len(self.decls) * 7 + len(self.procs))
         L = ["module %s" % self.name, "  implicit none", "  type :: box_t", "    integer :: w", "  end type box_t"]
         self.decl_line = {}
         for d in self.decls:
             ls, off = d.lines("  ")
             self.decl_line[d.name] = len(L) + off
             L += ls
+        self.group_items = []
+        for stmts, outs in self.groups:
+            for o in outs:
+                self.decl_line[o.name] = len(L)
+                self.group_items.append(o)
+            L += ["  " + st for st in stmts]
         L.append("contains")
         self.proc_line, self.arg_line, self.calls = {}, {}, []
         for p in self.procs:
@@ -179,7 +236,7 @@ class Module:
         L.append("    integer :: tmp_i")
         for p in self.procs:
             # one call line per procedure; cursor positions are computed from the rendered text
-            vals = ["x%d" % i for i in range(len(p["args"]))]
+            vals = [self_r.choice(["x%d" % i, "max(%d, 2)" % i, '"a,b"', "(/ %d, 2 /)" % i, "f2(g(1, 2), 3)"]) for i in range(len(p["args"]))]
             self.calls.append((p, len(L), "    call %s(" % p["name"] if not p["fun"] else "    tmp_i = %s(" % p["name"], vals))
             L.append(("    call %s(" % p["name"] if not p["fun"] else "    tmp_i = %s(" % p["name"]) + ", ".join(vals) + ")")
             kw = [a for a in p["args"]]
@@ -215,7 +272,7 @@ def check_oracle(ctx, n):
                     return None
                 return r[2]["contents"]["value"]
 
-            for d in m.decls:
+            for d in m.decls + m.group_items:
                 v = hover(m.decl_line[d.name], d.name)
                 inp = {"text": text, "entity": d.name, "line": m.decl_line[d.name]}
                 if v is None:
@@ -267,7 +324,7 @@ def check_oracle(ctx, n):
                 kwname = call[4] if len(call) > 4 else None
                 pos = len(head)
                 for i, vtxt in enumerate(vals):
-                    ch = pos + (len(vtxt) if kwname else len(vtxt) // 2 + (1 if not vtxt else 0))
+                    ch = pos + len(vtxt)        # after the argument text: at the top level of this call
                     r, _ = impl.request(srv, conn, "textDocument/signatureHelp", impl.pos_params(path, line, max(ch, pos)))
                     inp = {"text": text, "line": line, "character": max(ch, pos), "procedure": p["name"]}
                     if not p["args"]:
